@@ -860,7 +860,8 @@ def t1_property(pid, tier, seed, replay):
         # a proof obligation or the correspondence broke, but no implementation transcript violates
         # the property's predicate: widen the search once (thorough families) before giving up
         found = None
-        if tier == "quick":
+        # HLV_NO_WIDEN=1: used by the mutation sweep only (tools/mutsweep.py), to keep it fast
+        if tier == "quick" and not os.environ.get("HLV_NO_WIDEN"):
             for fam in cfg["families"]:
                 r = run_family(fam, "thorough", seed, key)
                 if "error" in r: continue
